@@ -18,7 +18,16 @@
    Object identity: _patch.__enter__ (mock.py) builds a NEW object on every activation when
    new is DEFAULT (MagicMock or new_callable()); an explicit new= object is the same object every
    time.  `ONew p g` = the object installed by patcher p, g = which activation made it (0 for an
-   explicit object); `gen` counts the successful activations per patcher.                        *)
+   explicit object); `gen` counts the successful activations per patcher.
+   Shared replacements: the SAME caller-supplied object may be given as new= to several patchers
+   (`pshare` = the lowest patcher that was given it).  _maybe_wrap_new (244-280) runs once per
+   patch() call: a function / bound method / attribute-refusing callable gets its OWN
+   AsyncAndSyncPairDecorator / Wrapper per patcher (`ONew p 0`, all delegating to the one shared
+   body `ONew (pshare) 0`), an object installed as is (callable object, Mock instance, class,
+   @asynq function, non-callable) IS the one shared object `ONew (pshare) 0` in every slot.
+   `attached` = the objects on which _PatchAsync.__enter__ 150-154 has set .asynq/.async/.asyncio;
+   nothing in mock_.py ever takes them off again (there is no __exit__ override), which is what
+   keeps a patch usable after an overlapping patch sharing its replacement has ended.            *)
 From Asynq Require Export Base.
 
 (* ------------------------------------------------------------------ static description *)
@@ -41,7 +50,9 @@ Inductive rkind :=
 | RNcFrozen           (* new_callable=<class with __call__ whose __setattr__ raises TypeError>,
                          like a Cython cdef class                                                 *)
 | RNcType             (* new_callable=lambda: <immutable builtin type, e.g. dict>: TypeError      *)
-| RNcRaiser.          (* new_callable=<class with __call__ whose __setattr__ raises RuntimeError> *)
+| RNcRaiser           (* new_callable=<class with __call__ whose __setattr__ raises RuntimeError> *)
+| RMockObj            (* a Mock / MagicMock INSTANCE given as new=: callable, takes attributes     *)
+| RClassObj.          (* a class given as new= (calling it runs the replacement's code)           *)
 
 Inductive beh := BRet | BRaise.          (* what the replacement's body does with its arguments *)
 
@@ -65,7 +76,7 @@ Definition desc_of (r : rkind) : newdesc :=
   | RStaticmethod => mkdesc false true true true
   | RAsynqFn => mkdesc false false true true
   | RBound => mkdesc false false true false
-  | RCallableObj => mkdesc false false true true
+  | RCallableObj | RMockObj | RClassObj => mkdesc false false true true
   | RSlotsObj => mkdesc false false true false
   | RNonCallable => mkdesc false false false false
   end.
@@ -241,7 +252,7 @@ Definition obj_eqb (a b : obj) : bool :=
   | _, _ => false
   end.
 
-Record pspec := mkp { ptarget : Z; prk : rkind; pbeh : beh }.
+Record pspec := mkp { ptarget : Z; prk : rkind; pbeh : beh; pshare : Z }.
 
 (* dynamic state of one _patch object: temp_original / is_local exist only between enter and exit *)
 Definition psaved := option (option obj * bool).
@@ -250,7 +261,8 @@ Record state := mkst {
   own : Z -> option obj;        (* target.__dict__[attribute]                                  *)
   saved : Z -> psaved;          (* per patcher                                                 *)
   active : list Z;              (* _patch._active_patches                                      *)
-  gen : Z -> Z                  (* per patcher: successful activations so far                  *)
+  gen : Z -> Z;                 (* per patcher: successful activations so far                  *)
+  attached : obj -> bool        (* objects carrying the .asynq/.async/.asyncio wrappers 152-154 *)
 }.
 
 Definition upd {V} (f : Z -> V) (k : Z) (v : V) : Z -> V := fun x => if Z.eqb x k then v else f x.
@@ -277,7 +289,16 @@ Definition attach_failure (i : inst) : option exn :=
   if inst_callable i then match i with ISlots r => Some (refusal_exn r) | _ => None end else None.
 
 (* the object an activation of patcher p installs when p has been activated g times before *)
-Definition new_obj (p : Z) (r : rkind) (g : Z) : obj := ONew p (if per_activation r then g else 0).
+(* _maybe_wrap_new returns `new` itself (259, 280) *)
+Definition given_as_is (r : rkind) : bool :=
+  match maybe_wrap_new (desc_of r) with WAsIs => true | _ => false end.
+
+Definition new_obj (p : Z) (sp : pspec) (g : Z) : obj :=
+  if per_activation (prk sp) then ONew p g
+  else if given_as_is (prk sp) then ONew (pshare sp) 0 else ONew p 0.
+
+Definition set_attached (f : obj -> bool) (o : obj) : obj -> bool :=
+  fun x => if obj_eqb x o then true else f x.
 
 Section Run.
   Variable w : world.
@@ -298,9 +319,11 @@ Section Run.
         match attach_failure (installed (prk sp)) with
         | Some e => (st, RFail e)                   (* attaching .asynq fails: patch undone, re-raised *)
         | None =>
-          (mkst (upd (own st) t (Some (new_obj p (prk sp) (gen st p))))
+          (mkst (upd (own st) t (Some (new_obj p sp (gen st p))))
                 (upd (saved st) p (Some (orig, local))) (active st)
-                (upd (gen st) p (gen st p + 1)), RDone)
+                (upd (gen st) p (gen st p + 1))
+                (if inst_callable (installed (prk sp))            (* `if callable(mock_fn):` 150 *)
+                 then set_attached (attached st) (new_obj p sp (gen st p)) else attached st), RDone)
         end
       end
     end.
@@ -315,14 +338,14 @@ Section Run.
                        | Some _ => upd (own st) t None         (* delattr; hasattr still true *)
                        | None => upd (own st) t orig
                        end in
-      (mkst own' (upd (saved st) p None) (active st) (gen st), RDone)
+      (mkst own' (upd (saved st) p None) (active st) (gen st) (attached st), RDone)   (* wrappers stay *)
     | _, _ => (st, RFail E_ATTRIBUTE)               (* del self.temp_original: AttributeError *)
     end.
 
   Definition start (st : state) (p : Z) : state * ores :=
     let '(st', r) := enter st p in
     match r with
-    | RDone => (mkst (own st') (saved st') (active st' ++ [p]) (gen st'), RDone)
+    | RDone => (mkst (own st') (saved st') (active st' ++ [p]) (gen st') (attached st'), RDone)
     | _ => (st', r)
     end.
 
@@ -336,7 +359,7 @@ Section Run.
   Definition stop (st : state) (p : Z) : state * ores :=
     match remove1 p (active st) with
     | None => (st, RDone)                           (* not started: returns None *)
-    | Some l => exit (mkst (own st) (saved st) l (gen st)) p
+    | Some l => exit (mkst (own st) (saved st) l (gen st) (attached st)) p
     end.
 
   (* _patch_stopall: for patch in reversed(_active_patches): patch.stop()
@@ -374,8 +397,9 @@ Section Run.
     match own st t with Some o => Some o | None => inh w t end.
 
   Inductive cres :=
-  | CReached (who : obj) (recv : list Z) (b : beh)
-  | CNotCallable.
+  | CReached (who : obj) (recv : list Z) (b : beh)   (* who = the object whose code ran *)
+  | CNotCallable
+  | CDetached.           (* AttributeError: the installed object has no .asynq / .asyncio *)
 
   Inductive res :=
   | RO (r : ores)
@@ -396,6 +420,36 @@ Section Run.
                 end
     end.
 
+  (* the object whose code runs when o is called: a per-patcher AsyncAndSyncPairDecorator /
+     Wrapper delegates to the (possibly shared) object it was made from *)
+  Definition body_of (o : obj) : obj :=
+    match o with
+    | OOrig _ => o
+    | ONew p _ => match specs w p with
+                  | Some sp => if per_activation (prk sp) then o else ONew (pshare sp) 0
+                  | None => o
+                  end
+    end.
+
+  (* objects that bring their own .asynq/.asyncio (AsyncDecorator methods) *)
+  Definition inst_unattached (i : inst) : option inst :=
+    match i with
+    | IOrig ft => Some (IOrig ft)
+    | IAsynq => Some (IOrig FPlain)     (* an @asynq() function without the wrappers is just that *)
+    | _ => None
+    end.
+
+  Definition probe_conv (i : inst) (att : bool) (acc : access) (who : obj) (b : beh) (c : conv) (args : list Z) : cres :=
+    let go i' := match dispatch Z SELF CLS i' acc c args with
+                 | Reached r => CReached who r b
+                 | NotCallable => CNotCallable
+                 end in
+    if att then go i
+    else match inst_unattached i with
+         | Some i' => go i'
+         | None => match c with CSync => go i | _ => CDetached end
+         end.
+
   Definition probe (st : state) (t : Z) (args : list Z) : res :=
     match current st t with
     | None => RProbe None []
@@ -405,10 +459,7 @@ Section Run.
       | Some (i, b) =>
         if inst_callable i then
           let acc := access_of (tkinds w t) (match own st t with Some _ => true | None => false end) in
-          RProbe (Some o) (map (fun c => match dispatch Z SELF CLS i acc c args with
-                                         | Reached r => CReached o r b
-                                         | NotCallable => CNotCallable
-                                         end) all_convs)
+          RProbe (Some o) (map (fun c => probe_conv i (attached st o) acc (body_of o) b c args) all_convs)
         else RProbe (Some o) []
       end
     end.
@@ -440,10 +491,10 @@ End Run.
 Definition nthZ {V} (l : list V) (k : Z) : option V :=
   if Z.ltb k 0 then None else nth_error l (Z.to_nat k).
 
-Definition mk_world (tks : list tkind) (ps : list (Z * rkind * beh)) : world :=
+Definition mk_world (tks : list tkind) (ps : list (Z * rkind * beh * Z)) : world :=
   mkw (fun t => match nthZ tks t with Some k => k | None => TModFn end)
       (fun t => match nthZ tks t with Some TInstMethod => Some (OOrig t) | _ => None end)
-      (fun p => match nthZ ps p with Some (t, r, b) => Some (mkp t r b) | None => None end).
+      (fun p => match nthZ ps p with Some (t, r, b, sh) => Some (mkp t r b sh) | None => None end).
 
 Definition init_state (tks : list tkind) : state :=
   mkst (fun t => match nthZ tks t with
@@ -451,14 +502,14 @@ Definition init_state (tks : list tkind) : state :=
                  | Some _ => Some (OOrig t)
                  | None => None
                  end)
-       (fun _ => None) [] (fun _ => 0).
+       (fun _ => None) [] (fun _ => 0) (fun _ => false).
 
 Fixpoint zrange (n : nat) : list Z :=
   match n with O => [] | S k => zrange k ++ [Z.of_nat k] end.
 
 (* output: one result per op; the final own slot of every target; how many patches are still
    registered as started *)
-Definition run_case (tks : list tkind) (ps : list (Z * rkind * beh)) (ops : list op)
+Definition run_case (tks : list tkind) (ps : list (Z * rkind * beh * Z)) (ops : list op)
   : list res * list (option obj) * Z :=
   let w := mk_world tks ps in
   let '(st, rs) := run w (init_state tks) ops in
